@@ -35,7 +35,7 @@ def cases(tier, seed):
         for fam in ("gen", "boundary", "degenerate"):
             if fam != "gen" and cfg["env"] == "mtvrp" and cfg.get("preset") not in ("all", "vrpb", "ovrpbltw"):
                 continue
-            if fam != "gen" and cfg["env"] in ("tsp", "atsp", "pdp", "svrp", "mdcpdp") and fam == "boundary":
+            if fam != "gen" and cfg["env"] in ("tsp", "atsp", "pdp", "mdcpdp") and fam == "boundary":
                 continue  # no boundary family defined: identical to gen
             for r in range(reps if fam == "gen" else max(1, reps // 2)):
                 out.append(dict(cfg=cfg, family=fam, B=8 if tier == "quick" else 12, s=rnd.randrange(10**6)))
